@@ -299,7 +299,16 @@ package raft
 // ===========================================================================================
 
 //@ func Raft.nextConfiguration
-//@   flags inline lockheld
+//@   flags lockheld
+//@   requires [next-nonnil] next != nil
+//@   requires [pre-nonnil] r.configuration != nil && r.followers != nil && r.operationManager != nil && r.logger != nil
+//@   requires [pre-I6b] forall fid string :: fid in r.followers ==> r.followers[fid] != nil
+//@   ensures [config] r.configuration == next
+//@   ensures [I6b] forall fid string :: fid in r.followers ==> r.followers[fid] != nil
+//@   ensures [state] r.state == old(r.state) || (old(r.state) == Leader && r.state == Follower)
+//@   ensures [I11] r.operationManager != nil && r.operationManager.leaderLease != nil
+//@   ensures [answered-mono] forall c int :: old(answered[c]) ==> answered[c]
+//@   ensures [clock] now >= old(now)
 //@   loop range r.configuration.Members invariant [I6b] forall fid string :: fid in r.followers ==> r.followers[fid] != nil
 //@   loop range next.Members invariant [I6b] forall fid string :: fid in r.followers ==> r.followers[fid] != nil
 
@@ -308,16 +317,18 @@ package raft
 // ===========================================================================================
 
 //@ func Raft.becomeFollower
-//@   flags inline lockheld
-//@   requires r.stateStorage != nil && r.operationManager != nil && r.followers != nil && r.logger != nil
-//@   requires forall id string :: id in r.followers ==> r.followers[id] != nil
-//@   requires term >= r.currentTerm
+//@   flags lockheld
+//@   requires [pre-nonnil] r.stateStorage != nil && r.operationManager != nil && r.followers != nil && r.logger != nil
+//@   requires [pre-I6b] forall id string :: id in r.followers ==> r.followers[id] != nil
+//@   requires [pre-term] term >= r.currentTerm
 //@   ensures [state] r.state == Follower && r.currentTerm == term && r.leaderID == leaderID
-//@   ensures [G2] term == old(r.currentTerm) && old(r.votedFor) != "" ==> r.votedFor == old(r.votedFor)
+//@   ensures [G2] term == old(r.currentTerm) ==> r.votedFor == old(r.votedFor)
 //@   ensures [vote-cleared] term > old(r.currentTerm) ==> r.votedFor == ""
 //@   ensures [I7] persTerm == r.currentTerm && persVote == r.votedFor
-//@   ensures [tables-empty] r.operationManager != nil && card(dom(r.operationManager.pendingReplicated)) == 0 && card(dom(r.operationManager.pendingReadOnly)) == 0
+//@   ensures [tables-empty] r.operationManager != nil && r.operationManager.leaderLease != nil && card(dom(r.operationManager.pendingReplicated)) == 0 && card(dom(r.operationManager.pendingReadOnly)) == 0
+//@   ensures [lease-fresh] r.operationManager.leaderLease.expiration <= now && now >= old(now)
 //@   ensures [snapshot-reset] r.snapshot == nil
+//@   ensures [answered-mono] forall c int :: old(answered[c]) ==> answered[c]
 
 //@ func Raft.becomeCandidate
 //@   flags inline lockheld
@@ -370,13 +381,17 @@ package raft
 //@   at call r.becomeLeader assert [becomeLeader.entry] !prevote && r.state == Candidate && request.Term == r.currentTerm && 2 * *votes > cntVoters(r.configuration)
 
 //@ func Raft.becomeLeader
-//@   flags inline lockheld
-//@   requires r.configuration != nil && r.followers != nil && r.log != nil && r.operationManager != nil && r.logger != nil
-//@   requires forall id string :: id in r.followers ==> r.followers[id] != nil
+//@   flags lockheld
+//@   requires [pre-nonnil] r.configuration != nil && r.followers != nil && r.log != nil && r.operationManager != nil && r.logger != nil
+//@   requires [pre-I6b] forall id string :: id in r.followers ==> r.followers[id] != nil
 //@   ensures [state] r.state == Leader && r.currentTerm == old(r.currentTerm) && r.votedFor == old(r.votedFor)
 //@   ensures [noop] Llast == old(Llast) + 1 && Lterm[Llast] == r.currentTerm && Ltyp[Llast] == NoOpEntry && forall i int :: i <= old(Llast) ==> Lterm[i] == old(Lterm[i]) && Ltyp[i] == old(Ltyp[i]) && Ldata[i] == old(Ldata[i])
-//@   ensures [reset] forall fid string :: fid in r.followers ==> r.followers[fid].matchIndex == 0
-//@   loop range r.followers invariant [reset] forall fid string :: fid in visited ==> r.followers[fid].matchIndex == 0
+//@   ensures [reset] forall fid string :: fid in r.followers ==> r.followers[fid].matchIndex == 0 && r.followers[fid].nextIndex <= Llast + 1
+//@   ensures [I11] r.operationManager != nil && r.operationManager.leaderLease != nil
+//@   ensures [lease-fresh] r.operationManager.leaderLease.expiration <= now && now >= old(now)
+//@   ensures [snapshot-reset] r.snapshot == nil
+//@   ensures [answered-mono] forall c int :: old(answered[c]) ==> answered[c]
+//@   loop range r.followers invariant [reset] Llast == old(Llast) && forall fid string :: fid in visited ==> r.followers[fid].matchIndex == 0 && r.followers[fid].nextIndex <= Llast + 1
 
 //@ func Raft.sendAppendEntriesToPeers
 //@   flags inline lockheld
